@@ -6,8 +6,10 @@ package nsqd
 // and carries its own direct oracle. They are driven from corpus scripts replayed on every run.
 
 import (
+	"bufio"
 	"encoding/binary"
 	"fmt"
+	"io"
 	"net"
 	"sort"
 	"strings"
@@ -33,6 +35,7 @@ func (h *vfE2H) rawPub(tp *vfE2Topic, size int) int {
 	seq := h.nextSeq
 	h.nextSeq++
 	h.sizes[seq] = size
+	h.pubT[seq] = [2]int64{time.Now().UnixNano(), 0}
 	body := vfE2Body(seq, size)
 	var sz [4]byte
 	binary.BigEndian.PutUint32(sz[:], uint32(len(body)))
@@ -42,7 +45,7 @@ func (h *vfE2H) rawPub(tp *vfE2Topic, size int) int {
 		h.aborted = true
 	}
 	h.acked(tp, seq, size, false)
-	h.emit(fmt.Sprintf("pub %d %d", tp.t, size), fmt.Sprintf("ids %d", seq))
+	h.emit(fmt.Sprintf("pub %d %d @T%d %d", tp.t, size, seq, vfE2Crc(body)), fmt.Sprintf("ids %d", seq))
 	return seq
 }
 
@@ -429,7 +432,7 @@ func (h *vfE2H) doStall(t, c, n, size int) {
 	}
 	sort.Slice(mine, func(i, j int) bool { return mine[i].dts < mine[j].dts })
 	for _, e := range mine {
-		h.emit(fmt.Sprintf("deliver %d %d %d", k, e.seq, e.dts), fmt.Sprintf("msg %d", e.att))
+		h.emit(fmt.Sprintf("deliver %d %d %d", k, e.seq, e.dts), fmt.Sprintf("msg %d %d %d", e.att, e.ts, e.crc))
 		ch.lastAtt[e.seq] = int(e.att)
 		ch.holder[e.seq] = k
 	}
@@ -510,4 +513,83 @@ func (h *vfE2H) doSlowPause(t, c, nfake int) {
 	}
 	h.count("sched:slowpause")
 	h.after(tp)
+}
+
+// doAttWrap — F11 (thorough tier only, corpus/C02/known/attempts_wrap.ops): one message on a private
+// topic is REQueued (timeout 0) by its only consumer until it has been delivered n times, over the
+// real TCP front end, nothing steered and nothing poked. Delivery number i must carry attempts i;
+// the wire field and `Message.Attempts` are uint16, so delivery 65 536 carries 0. The private topic
+// is outside the model (it is deleted before the command returns), the command emits no op line.
+func (h *vfE2H) doAttWrap(n int) {
+	if n <= 0 {
+		n = 65537
+	}
+	const topic = "vfe2_attwrap"
+	nc, err := net.DialTimeout("tcp", h.tcpAddr, 5*time.Second)
+	if err != nil {
+		h.fail("sched", "attwrap: dial: %v", err)
+		return
+	}
+	defer func() {
+		nc.Close()
+		time.Sleep(50 * time.Millisecond)
+		h.n.DeleteExistingTopic(topic)
+		h.busyMu.Lock()
+		h.busy = map[int64]bool{}
+		atomic.StoreInt64(&h.nbusy, 0)
+		h.busyMu.Unlock()
+	}()
+	rd := bufio.NewReaderSize(nc, 1<<16)
+	frame := func() (int32, []byte, bool) {
+		nc.SetReadDeadline(time.Now().Add(10 * time.Second))
+		var hdr [8]byte
+		if _, err := io.ReadFull(rd, hdr[:]); err != nil {
+			return 0, nil, false
+		}
+		data := make([]byte, int32(binary.BigEndian.Uint32(hdr[:4]))-4)
+		if _, err := io.ReadFull(rd, data); err != nil {
+			return 0, nil, false
+		}
+		return int32(binary.BigEndian.Uint32(hdr[4:])), data, true
+	}
+	body := []byte("attempts-wrap")
+	var sz [4]byte
+	binary.BigEndian.PutUint32(sz[:], uint32(len(body)))
+	nc.Write([]byte("  V2"))
+	nc.Write(append(append([]byte("PUB "+topic+"\n"), sz[:]...), body...))
+	if _, d, ok := frame(); !ok || string(d) != "OK" {
+		h.fail("sched", "attwrap: PUB answered %q", d)
+		return
+	}
+	nc.Write([]byte("SUB " + topic + " c\n"))
+	if _, d, ok := frame(); !ok || string(d) != "OK" {
+		h.fail("sched", "attwrap: SUB answered %q", d)
+		return
+	}
+	nc.Write([]byte("RDY 1\n"))
+	var id []byte
+	bad := 0
+	for i := 1; i <= n; i++ {
+		typ, d, ok := frame()
+		for ok && typ == frameTypeResponse && string(d) == "_heartbeat_" {
+			nc.Write([]byte("NOP\n"))
+			typ, d, ok = frame()
+		}
+		if !ok || typ != frameTypeMessage || len(d) < 26 {
+			h.fail("sched", "attwrap: delivery %d did not arrive (frame type %d %q)", i, typ, d)
+			return
+		}
+		att := int(binary.BigEndian.Uint16(d[8:10]))
+		id = d[10:26]
+		if att != i && bad < 2 {
+			bad++
+			h.fail("attempts-wrap-65536", "delivery number %d of one message on one channel carries attempts %d on the wire (Message.Attempts and the frame field are uint16: the count wraps at 65536)", i, att)
+		}
+		if i < n {
+			nc.Write([]byte("REQ " + string(id) + " 0\n"))
+		}
+	}
+	nc.Write([]byte("FIN " + string(id) + "\n"))
+	h.count("sched:attwrap")
+	h.hist["attwrap:deliveries"] = n
 }
